@@ -486,11 +486,12 @@ def exportDisp (multiblend : Bool) (d : Disp) : KV :=
           | none => v3one.str)
      else []))
 
+def pointLeaves (i : Nat) : List V3 → List KV
+  | [] => []
+  | p :: ps => kLeaf "point" (showNat i ++ ' ' :: p.str) :: pointLeaves (i + 1) ps
+
 def exportPoints (pts : List V3) : KV :=
-  let rec go (i : Nat) : List V3 → List KV
-    | [] => []
-    | p :: ps => kLeaf "point" (showNat i ++ ' ' :: p.str) :: go (i + 1) ps
-  kBlock "point_data" (kInt "numpts" pts.length :: go 0 pts)
+  kBlock "point_data" (kInt "numpts" pts.length :: pointLeaves 0 pts)
 
 def exportSide (multiblend : Bool) (s : Side) : KV :=
   kBlock "side" ([
@@ -926,27 +927,43 @@ def parseDisp (cs : List KV) : Except Err Disp := do
     (fun v t => do pure { v with malpha := ← num4 t }) verts
   pure { power, pos, elev, coll, subdiv, allowed, verts }
 
-def parsePoints (cs : List KV) : Except Err (List V3) := do
-  let n := getInt "numpts" 0 cs
-  let init : List (Option V3) := List.replicate n.toNat none
-  let pts ← cs.foldlM (init := init) fun pts k =>
-    if named "point" k then
-      match k with
-      | .block _ _ => .error .leafKv
-      | .leaf _ v =>
-        match splitFirst ' ' v [] with
-        | (_, none) => .error .points
-        | (indStr, some posStr) =>
-          match parseInt? indStr with
-          | some (.ofNat i) =>
-            match pts[i]? with
-            | some none => .ok (setAt pts i fun _ => some (parseV3 v3zero posStr))
-            | _ => .error .points
+/-- a loop over children with an accumulator (`for x in kvs: …`), stopping at the first error. -/
+def foldE {σ} (step : σ → KV → Except Err σ) : σ → List KV → Except Err σ
+  | st, [] => .ok st
+  | st, k :: ks =>
+    match step st k with
+    | .error e => .error e
+    | .ok st' => foldE step st' ks
+
+/-- one `point` line of a Strata `point_data` block: `"<index> <x> <y> <z>"`. -/
+def pointStep (pts : List (Option V3)) (k : KV) : Except Err (List (Option V3)) :=
+  if named "point" k then
+    match k with
+    | .block _ _ => .error .leafKv
+    | .leaf _ v =>
+      match splitFirst ' ' v [] with
+      | (_, none) => .error .points
+      | (indStr, some posStr) =>
+        match parseInt? indStr with
+        | some (.ofNat i) =>
+          match pts[i]? with
+          | some none => .ok (setAt pts i fun _ => some (parseV3 v3zero posStr))
           | _ => .error .points
-    else .ok pts
-  pts.mapM fun p => match p with
-    | some v => .ok v
-    | none => .error .points
+        | _ => .error .points
+  else .ok pts
+
+def collectPoints : List (Option V3) → Except Err (List V3)
+  | [] => .ok []
+  | none :: _ => .error .points
+  | some v :: r =>
+    match collectPoints r with
+    | .error e => .error e
+    | .ok l => .ok (v :: l)
+
+def parsePoints (cs : List KV) : Except Err (List V3) :=
+  match foldE pointStep (List.replicate (getInt "numpts" 0 cs).toNat none) cs with
+  | .error e => .error e
+  | .ok pts => collectPoints pts
 
 /-- `tree["plane", …][1:-1].split(") (")` and the three `Vec.from_str`. -/
 def parsePlanes (cs : List KV) : Except Err (V3 × V3 × V3) :=
@@ -1025,14 +1042,6 @@ def solidEdStep (st : SolidEd) (k : KV) : Except Err SolidEd :=
     | some g => .ok { st with visIds := st.visIds ++ [g] }
     | none => .ok st)
   else .ok st
-
-/-- a loop over children with an accumulator (`for x in kvs: …`), stopping at the first error. -/
-def foldE {σ} (step : σ → KV → Except Err σ) : σ → List KV → Except Err σ
-  | st, [] => .ok st
-  | st, k :: ks =>
-    match step st k with
-    | .error e => .error e
-    | .ok st' => foldE step st' ks
 
 /-- `for side in tree.find_all("side")`. -/
 def parseSides : List KV → Except Err (List Side)
